@@ -286,11 +286,11 @@ class SymI(SymR):
 
     def _ibin(s, o, f):
         if isinstance(o, SymI):
-            return SymI(f(s.e, o.e))
+            return s.__class__(f(s.e, o.e))
         if isinstance(o, (bool, _np.bool_)):
-            return SymI(f(s.e, z3.IntVal(int(o))))
+            return s.__class__(f(s.e, z3.IntVal(int(o))))
         if isinstance(o, (int, _np.integer)):
-            return SymI(f(s.e, z3.IntVal(int(o))))
+            return s.__class__(f(s.e, z3.IntVal(int(o))))
         return None
 
     def __add__(s, o):
@@ -320,36 +320,36 @@ class SymI(SymR):
     def __floordiv__(s, o):
         # python floor division == z3 int div for positive divisor
         if isinstance(o, (int, _np.integer)) and int(o) > 0:
-            return SymI(s.e / z3.IntVal(int(o)))
+            return s.__class__(s.e / z3.IntVal(int(o)))
         raise TypeError("symbolic // unsupported divisor")
 
     def __mod__(s, o):
         if isinstance(o, (int, _np.integer)) and int(o) > 0:
-            return SymI(s.e % z3.IntVal(int(o)))
+            return s.__class__(s.e % z3.IntVal(int(o)))
         raise TypeError("symbolic % unsupported divisor")
 
     def __rshift__(s, k):
         if isinstance(k, (int, _np.integer)) and int(k) >= 0:
-            return SymI(s.e / z3.IntVal(1 << int(k)))       # floor division, as Python's >>
+            return s.__class__(s.e / z3.IntVal(1 << int(k)))       # floor division, as Python's >>
         raise TypeError("symbolic >> unsupported shift")
 
     def __lshift__(s, k):
         if isinstance(k, (int, _np.integer)) and int(k) >= 0:
-            return SymI(s.e * z3.IntVal(1 << int(k)))
+            return s.__class__(s.e * z3.IntVal(1 << int(k)))
         raise TypeError("symbolic << unsupported shift")
 
     def __and__(s, m):
         if isinstance(m, (int, _np.integer)) and int(m) >= 0 and (int(m) + 1) & int(m) == 0:
-            return SymI(s.e % z3.IntVal(int(m) + 1))        # low-bit mask (two's complement semantics)
+            return s.__class__(s.e % z3.IntVal(int(m) + 1))        # low-bit mask (two's complement semantics)
         raise TypeError("symbolic & unsupported mask")
 
     __rand__ = __and__
 
     def __neg__(s):
-        return SymI(-s.e)
+        return s.__class__(-s.e)
 
     def __abs__(s):
-        return SymI(z3.If(s.e >= 0, s.e, -s.e))
+        return s.__class__(z3.If(s.e >= 0, s.e, -s.e))
 
     def __index__(s):
         return _ENG[0].fork_int(s.e)
